@@ -218,7 +218,10 @@ pub fn run_c06(o: &crate::Opts) {
             &[0x30],
             &[],
         ];
-        for (i, bytes) in progs.iter().enumerate() {
+        // (the writer sends the bytes in one piece, or in pieces of odd lengths with pauses: how the
+        // bytes arrive must not matter)
+        let chunkings: [&[usize]; 4] = [&[], &[3, 3], &[5], &[1, 1, 1, 2, 7]];
+        for (i, (bytes, chunks)) in progs.iter().flat_map(|b| chunkings.iter().map(move |c| (b, c))).enumerate() {
             std::fs::write(dir.join("pipe.lc3"), bytes).unwrap();
             let reg = spawn(&dir, &["run", "pipe.lc3", "--minimal"], &[], 10000);
             let _ = std::fs::remove_file(dir.join("pipe.lc3"));
@@ -229,9 +232,21 @@ pub fn run_c06(o: &crate::Opts) {
             }
             let fifo = dir.join("pipe.lc3");
             let data = bytes.to_vec();
+            let chunks: Vec<usize> = chunks.to_vec();
             let writer = std::thread::spawn(move || {
                 if let Ok(mut f) = std::fs::OpenOptions::new().write(true).open(&fifo) {
-                    let _ = f.write_all(&data);
+                    let mut rest: &[u8] = &data;
+                    for n in chunks {
+                        let n = n.min(rest.len());
+                        if n == 0 {
+                            break;
+                        }
+                        let _ = f.write_all(&rest[..n]);
+                        let _ = f.flush();
+                        rest = &rest[n..];
+                        std::thread::sleep(Duration::from_millis(40));
+                    }
+                    let _ = f.write_all(rest);
                 }
             });
             let via = spawn(&dir, &["run", "pipe.lc3", "--minimal"], &[], 10000);
@@ -713,8 +728,9 @@ fn obs_c08(dir: &Path, src: &str, stack: bool, dest: &str, lim: Option<u64>) -> 
     //   lnkrel: the destination is `sub/link.lc3`, a symbolic link with the relative target
     //           `real.lc3` (which exists with the given contents, or is absent: a dangling link)
     //   lnkabs: the same with an absolute target
+    //   hard:   the destination (when it exists) has a second hard link, `sub/other-name.lc3`
     let (variant, kind) = match dest.split_once(':') {
-        Some((v, k)) if ["nu8", "long", "lnkrel", "lnkabs"].contains(&v) => (v, k),
+        Some((v, k)) if ["nu8", "long", "lnkrel", "lnkabs", "hard"].contains(&v) => (v, k),
         _ => ("", dest),
     };
     let pre: Option<Vec<u8>> = kind.strip_prefix("pre:").map(|h| unhex(h).unwrap_or_default());
@@ -754,7 +770,10 @@ fn obs_c08(dir: &Path, src: &str, stack: bool, dest: &str, lim: Option<u64>) -> 
     if let Some(b) = &pre {
         // through the link, if any: the link's target gets the contents
         let p = if variant.starts_with("lnk") { work.join("sub/real.lc3") } else { read_path.clone() };
-        std::fs::write(p, b).unwrap();
+        std::fs::write(&p, b).unwrap();
+        if variant == "hard" {
+            std::fs::hard_link(&p, work.join("sub/other-name.lc3")).unwrap();
+        }
     }
     let mut a: Vec<&std::ffi::OsStr> = vec!["compile".as_ref(), "s.asm".as_ref(), dest_arg.as_os_str()];
     if stack {
@@ -767,7 +786,10 @@ fn obs_c08(dir: &Path, src: &str, stack: bool, dest: &str, lim: Option<u64>) -> 
     let count = |d: &Path, ok: &[std::ffi::OsString]| -> usize {
         std::fs::read_dir(d).map(|rd| rd.filter_map(|e| e.ok()).filter(|e| !ok.contains(&e.file_name())).count()).unwrap_or(0)
     };
-    let extra = count(&work, &expected) + count(&work.join("sub"), &["link.lc3".into(), "real.lc3".into()]);
+    let extra = count(&work, &expected) + count(&work.join("sub"), &["link.lc3".into(), "real.lc3".into(), "other-name.lc3".into()]);
+    // the other name of a hard-linked destination keeps the old contents whatever happens
+    let other_changed = variant == "hard" && pre.is_some() && std::fs::read(work.join("sub/other-name.lc3")).ok() != pre;
+    let extra = extra + other_changed as usize;
     let after = if kind == "devfull" {
         use std::os::unix::fs::FileTypeExt;
         match std::fs::symlink_metadata(&read_path) {
@@ -827,6 +849,7 @@ pub fn run_c08(o: &crate::Opts) {
         for dest in [
             "absent", "pre:0102", "pre:a1a2a3a4a5a6a7a8a9aaabacadaeaf", "nu8:absent", "nu8:pre:0102", "long:absent", "long:pre:0102",
             "lnkrel:absent", "lnkrel:pre:0102", "lnkabs:absent", "lnkabs:pre:a1a2a3a4a5a6a7a8a9aaabacadaeaf",
+            "hard:pre:0102", "hard:pre:a1a2a3a4a5a6a7a8a9aaabacadaeaf",
         ] {
             for k in 0..=8u64 {
                 let obs = obs_c08(&dir, src, false, dest, Some(k));
@@ -886,7 +909,7 @@ pub fn run_c08(o: &crate::Opts) {
         // of 255 bytes, a symbolic link (live or dangling, relative or absolute target) in a
         // sub-directory
         let dest = if (dest == "absent" || dest.starts_with("pre:")) && rng.chance(1, 3) {
-            format!("{}:{}", rng.pick(&["nu8", "long", "lnkrel", "lnkabs"]), dest)
+            format!("{}:{}", rng.pick(&["nu8", "long", "lnkrel", "lnkabs", "hard"]), dest)
         } else {
             dest
         };
